@@ -1,6 +1,8 @@
 """correspondence stream `mesh` (C16): get_open_edges and get_disconnected_faces_subsets of the real
 code against Model/Mesh.lean on random face lists (closed polyhedra, with deleted faces, several
-disjoint parts, permuted faces, renumbered vertices, flipped windings) — exact integer comparison."""
+disjoint parts, permuted faces, renumbered vertices, flipped windings; every 8th case arbitrary triples
+with repeated / degenerate faces) — exact integer comparison; and get_inwards_mask /
+fix_trimesh_orientation against `inwardsMask` / `fixOrientation` (run_inwards)."""
 import itertools
 
 import numpy as np
@@ -41,10 +43,141 @@ def gen_faces(rng):
     return out
 
 
+COORDS = {
+    "CUBE": [[x, y, z] for x in (-1, 1) for y in (-1, 1) for z in (-1, 1)],
+    "TETRA": [[0, 0, 0], [2, 0, 0], [0, 2, 0], [0, 0, 2]],
+    "OCTA": [[1, 0, 0], [-1, 0, 0], [0, 1, 0], [0, -1, 0], [0, 0, 1], [0, 0, -1]],
+}
+BASES = {"CUBE": CUBE, "TETRA": TETRA, "OCTA": OCTA}
+
+
+def gen_closed(rng):
+    """closed bodies with coordinates: 1-3 parts (apart, or touching in one vertex), faces shuffled, vertices
+    renumbered, random subset of faces flipped, windings rotated"""
+    verts, faces, off = [], [], 0
+    k = rng.choice([1, 1, 2, 3])
+    for j in range(k):
+        name = rng.choice(["CUBE", "TETRA", "OCTA"])
+        co = [[c[0] + 5 * j, c[1], c[2]] for c in COORDS[name]]
+        fs = [[v + off for v in f] for f in BASES[name]]
+        verts += co
+        faces += fs
+        off += len(co)
+    rng.shuffle(faces)
+    perm = list(range(off))
+    rng.shuffle(perm)  # new index of old vertex v is perm[v]
+    v2 = [None] * off
+    for old, new in enumerate(perm):
+        v2[new] = verts[old]
+    out = []
+    pflip = rng.choice([0.0, 0.2, 0.5, 0.8, 1.0])
+    for f in faces:
+        f = [perm[v] for v in f]
+        r = rng.randrange(3)
+        f = f[r:] + f[:r]
+        if rng.random() < pflip:
+            f = [f[0], f[2], f[1]]
+        out.append(f)
+    return v2, out
+
+
+def gen_any(rng):
+    """arbitrary index triples for the propagation sweep with a stubbed seed test: the stream's face lists (open,
+    joined through a vertex), or random triples over few vertices (non-manifold, repeated, degenerate faces)"""
+    if rng.random() < 0.6:
+        return gen_faces(rng)
+    nv = rng.randrange(3, 9)
+    return [[rng.randrange(nv) for _ in range(3)] if rng.random() < 0.15 else rng.sample(range(nv), 3) for _ in range(rng.randrange(1, 12))]
+
+
+def run_inwards(ctx, n):
+    """get_inwards_mask / fix_trimesh_orientation against Model/Mesh.lean `inwardsMask` / `fixOrientation`:
+    (a) closed bodies, real `is_facet_inwards`, its verdicts recorded and handed to the model;
+    (b) arbitrary triples, `is_facet_inwards` replaced by a table of random verdicts (pure propagation logic)"""
+    import magpylib._src.fields.field_BH_triangularmesh as tm
+
+    import signal
+
+    def on_alarm(*_):
+        raise TimeoutError
+
+    try:
+        old_handler = signal.signal(signal.SIGALRM, on_alarm)
+    except ValueError:  # not in the main thread: no watchdog
+        old_handler = None
+    real_seed = tm.is_facet_inwards
+    cases, lines, reals = [], [], []
+    stats = {"meshes": 0, "real_seed": 0, "stub_seed": 0, "reseeded": 0, "with_flips": 0, "disagreements": 0, "distinct": 0,
+             "inconsistent_after_fix_closed": 0}
+    try:
+        for i in range(n):
+            rec = []
+            if i % 2 == 0:
+                verts, fs = gen_closed(ctx.rng)
+
+                def seed(face, faces, rec=rec):
+                    r = bool(real_seed(face, faces))
+                    rec.append((len(faces), int(r)))
+                    return r
+                stats["real_seed"] += 1
+            else:
+                fs = gen_any(ctx.rng)
+                verts = [[0, 0, 0]] * (max(max(f) for f in fs) + 1)
+                table = [ctx.rng.randrange(2) for _ in range(len(fs) + 1)]
+
+                def seed(face, faces, rec=rec, table=table):
+                    rec.append((len(faces), table[len(faces)]))
+                    return bool(table[len(faces)])
+                stats["stub_seed"] += 1
+            tm.is_facet_inwards = seed
+            va, fa = np.array(verts, float), np.array(fs)
+            try:
+                if old_handler is not None:
+                    signal.alarm(20)
+                mask = tm.get_inwards_mask(va, fa)
+                rec1 = list(rec)
+                fixed = tm.fix_trimesh_orientation(va, fa)
+            except TimeoutError:
+                ctx.broken.append({"kind": "correspondence", "name": "mesh-inwards",
+                                   "detail": {"faces": fs, "real": "get_inwards_mask did not return within 20 s", "model": "terminates (orientLoop_fuel_sufficient)"}})
+                break
+            finally:
+                if old_handler is not None:
+                    signal.alarm(0)
+            enc = f"{len(fs)} " + " ".join(" ".join(map(str, f)) for f in fs)
+            lines.append("mesh inwards " + enc + f" {len(rec1)} " + " ".join(f"{a} {b}" for a, b in rec1))
+            reals.append("inwards left=0 mask " + "".join("1" if b else "0" for b in mask) + " faces " +
+                         " ".join(",".join(str(int(v)) for v in f) for f in fixed))
+            cases.append({"faces": fs, "seed_verdicts": rec1, "real_seed": i % 2 == 0})
+            stats["reseeded"] += len(rec1) > 1
+            stats["with_flips"] += bool(mask.any())
+            if i % 2 == 0:
+                d = [e for f in fixed.tolist() for e in ((f[0], f[1]), (f[1], f[2]), (f[2], f[0]))]
+                stats["inconsistent_after_fix_closed"] += len(set(d)) != len(d)
+    finally:
+        tm.is_facet_inwards = real_seed
+        if old_handler is not None:
+            signal.signal(signal.SIGALRM, old_handler)
+    out = run_driver(lines) if lines else []
+    seen = set()
+    for c, r, m in zip(cases, reals, out):
+        seen.add(r)
+        if r.strip() != m.strip():
+            stats["disagreements"] += 1
+            if stats["disagreements"] <= 3:
+                ctx.broken.append({"kind": "correspondence", "name": "mesh-inwards", "detail": {**c, "model": m, "real": r}})
+    if stats["inconsistent_after_fix_closed"]:
+        ctx.broken.append({"kind": "correspondence", "name": "mesh-inwards", "detail": "closed body left with two faces traversing an edge in the same direction"})
+    stats["meshes"] = len(cases)
+    stats["distinct"] = len(seen)
+    stats["samples"] = [{**cases[0], "model": out[0]}] if cases else []
+    return stats
+
+
 def run_stream(ctx, n):
     from magpylib._src.fields.field_BH_triangularmesh import get_disconnected_faces_subsets, get_open_edges
 
-    cases = [gen_faces(ctx.rng) for _ in range(n)]
+    cases = [gen_faces(ctx.rng) if i % 8 else gen_any(ctx.rng) for i in range(n)]
     lines = []
     for fs in cases:
         enc = f"{len(fs)} " + " ".join(" ".join(map(str, f)) for f in fs)
